@@ -18,6 +18,24 @@ CHECKS = {
          "Numeric order is the oracle; pairs around every length boundary, pairs differing in one payload byte, and memcmp sorts of thousands of keys (each sort certifies all pairs of its sample, including prefix-freeness) for scalars and 2-4 tuples.", "trusts: libc qsort/memcmp", "2/C05"),
  "C12": ("exploration", "__int128 reference model + exact-size slot under ASan / guard bytes",
          "Millions of (stored, width, amount) triples aimed at width boundaries and the signed-overflow edges run through tagged/external NoGrow/Grow; the slot is an exact-size heap block under ASan and guard-surrounded elsewhere; result, return width and untouched bytes are compared with an __int128 model.", "trusts: sanitizer runtime, harness model", "2/C12"),
+ "C02": ("exploration", "round-trip monitor with exact-size heap copies under ASan/UBSan, garbage-tail differential elsewhere, cross-build digests (scalar vs -march=native SIMD)",
+         "Every array codec variant (23 encoder/decoder pairings) on arrays from 15 content models and boundary-straddling lengths: decode(encode(A)) == A with the decoder reading from an exact-size heap copy of exactly the bytes the encoder reported (over-read = ASan abort) or from copies with two different garbage tails (result must not depend on them); random-access, block and run readers must agree with the full decoder; digests of the encoded bytes must agree across gcc -O2, -O0, ASan, clang and the SIMD build.",
+         "trusts: sanitizer runtime; decoders are given the original count; dictionary inputs <= 2^20 distinct values", "2/C02"),
+ "C03": ("exploration", "memory oracle: destination sized exactly by the library's own sizing function (ASan red zone / 4 KiB verified guard)",
+         "For each encoder the destination is exactly the advertised number of bytes; ASan aborts on the first byte written past it and the other configurations verify a 4 KiB guard; returned length <= advertised, == advertised for exact predictors. Worst-case generators per bound; a run in which a bound was never approached (written/advertised < 0.9) is inconclusive.",
+         "trusts: sanitizer runtime; float bound is loose by construction (max observed ratio reported)", "2/C03"),
+ "C06": ("exploration", "round-trip monitor over a decision-tree-aimed generator; selected leaf and guard outcomes observed through the public analysis API",
+         "Arrays are generated on both sides of every guard of the selection tree; automatic encode/decode and every forced encoding in its domain must reproduce the array exactly (exact-size heap copies under ASan); first byte, meta.encodingType and GetEncodingType must agree. Every leaf must be selected >= 100 times, the sampled-uniqueness path and a payload > 1 MiB must be exercised.",
+         "trusts: sanitizer runtime; dictionary inputs <= 2^20 distinct values", "2/C06"),
+ "C07": ("exploration", "bit-exactness and error-bound monitor over bit-field-generated doubles; cross-build digests",
+         "Doubles built from sign/exponent/mantissa fields (carry mantissas, exponent spreads > 255, all special kinds) through 4 precisions x 3 modes and EncodeAuto: FULL and specials bit-identical, reduced precision within the published bound 2^-mantissa_bits (long double arithmetic), EncodeAuto within the requested error; encoded bytes must agree across builds.",
+         "trusts: long double arithmetic of the host; infinity accepted only when |x|(1+bound) > DBL_MAX", "2/C07"),
+ "C13": ("exploration", "memory oracle: output buffer of exactly `capacity` elements (ASan red zone / verified guard), prefix oracle on the return value",
+         "Valid encodings x capacities {0,1,2,n/2,n-1,n,block edges}: the output is an exact-size heap block (malloc(0) for capacity 0) under ASan with and without NDEBUG, guard-verified elsewhere; r == 0 or r <= capacity with a correct prefix.",
+         "trusts: sanitizer runtime; capacities never exceed the encoded count (formats without terminator)", "2/C13"),
+ "C16": ("exploration", "ground-truth monitor: metadata vs input, vs two-pattern destination diff, vs reference layout parsers; poisoned output structs (MSan on a subset)",
+         "Reported counts, minima, widths, run/block counts, bit totals, exception counts and encoded sizes are compared with ground truth computed from the input, from the bytes actually modified in the destination and from independent parsers of the documented layouts; output-only structs are pre-poisoned so unwritten fields are detected.",
+         "trusts: harness reference parsers; in/out structs are passed zeroed as the API requires", "2/C16"),
 }
 
 def main():
